@@ -18,7 +18,9 @@ Record call := {
   c_genok : bool       (* the plugin can generate code for these types *)
 }.
 
-Record file := { f_path : path; f_toks : list token; f_calls : list call }.
+(* f_parses: the file's source parses without error (the loader tolerates syntax errors and
+   hands out an error-recovered AST with Bad* nodes for the others) *)
+Record file := { f_path : path; f_toks : list token; f_calls : list call; f_parses : bool }.
 
 (* what the loader reports for the package: files exclude derived.gen.go and files dropped
    by build constraints; plugin prefixes come sorted longest first (sortPlugins);
@@ -89,6 +91,14 @@ Fixpoint calls_loop (fl : flags) (plugins reserved : list name) (st : cstate) (c
               end
   end.
 
+Section Model.
+(* pg = true: the repaired code (repo-patches/C10-fix-no-rewrite-of-unparsable-file.patch)
+   refuses to rewrite a file that does not parse; pg = false: the tree before that fix *)
+Variable pg : bool.
+
+Definition blocked (f : file) (sg : subst) : bool :=
+  pg && negb (f_parses f) && match sg with [] => false | _ => true end.
+
 (* The naming pass alone (no file operation): for each file processed completely, the
    substitution its calls received.  This is the specification side of "which calls are
    renamed": the effects below are proved to be exactly the writes it induces. *)
@@ -99,7 +109,8 @@ Fixpoint names_loop (fl : flags) (plugins reserved : list name) (tms : list tmap
   | f :: r =>
       match calls_loop fl plugins reserved (tms, [], und) (f_calls f) with
       | GOk (tms', sg, und') =>
-          let '(l, res) := names_loop fl plugins reserved tms' und' r in ((f, sg) :: l, res)
+          if blocked f sg then ([], GErr)       (* error returned instead of rewriting *)
+          else let '(l, res) := names_loop fl plugins reserved tms' und' r in ((f, sg) :: l, res)
       | GErr => ([], GErr)
       | GCrash => ([], GCrash)
       end
@@ -111,10 +122,11 @@ Definition init_tms (plugins : list name) : list tmap :=
 Definition names_pass (fl : flags) (v : pkg) :=
   names_loop fl (p_plugins v) (p_reserved v) (init_tms (p_plugins v)) [] (p_files v).
 
+(* AddError: newPackage returned an error (a plugin's Add Error, an ambiguous/conflicting
+   name, or the refusal to rewrite an unparsable file) *)
 Inductive outcome10 :=
 | Success | LoadError | AddError | GeneratorError | CannotGenerate | Crash | OutOfViews.
 
-Section Model.
 Variable wm : wmode.                          (* how the user file is opened *)
 Variable fmt : list token -> bytes.           (* go/format.Node *)
 Variable gen_text : list tmap -> bytes.       (* the printer's derived.gen.go *)
@@ -134,7 +146,8 @@ Fixpoint files_loop (fl : flags) (plugins reserved : list name) (tms : list tmap
   | f :: r =>
       match calls_loop fl plugins reserved (tms, [], und) (f_calls f) with
       | GOk (tms', sg, und') =>
-          files_loop fl plugins reserved tms' und' r (ops ++ write_of (f, sg))
+          if blocked f sg then (ops, GErr)
+          else files_loop fl plugins reserved tms' und' r (ops ++ write_of (f, sg))
       | GErr => (ops, GErr)
       | GCrash => (ops, GCrash)
       end
@@ -284,6 +297,7 @@ Proof.
   - rewrite app_nil_r. reflexivity.
   - destruct (calls_loop fl plugins reserved (tms, [], und) (f_calls f)) as [[[t1 s1] u1]| |];
       cbn; try (rewrite app_nil_r; reflexivity).
+    destruct (blocked f s1); [cbn; rewrite app_nil_r; reflexivity|].
     rewrite IH.
     destruct (names_loop fl plugins reserved t1 u1 r) as [l res]. cbn.
     rewrite <- app_assoc. reflexivity.
@@ -300,6 +314,7 @@ Proof.
   induction fs as [|f0 r IH]; intros tms und f sg H; cbn in H; [contradiction|].
   destruct (calls_loop fl plugins reserved (tms, [], und) (f_calls f0)) as [[[t1 s1] u1]| |] eqn:E;
     cbn in H; try contradiction.
+  destruct (blocked f0 s1); [contradiction|].
   destruct (names_loop fl plugins reserved t1 u1 r) as [l res] eqn:En. cbn in H.
   destruct H as [H|H].
   - inversion H; subst. split; [left; reflexivity|].
@@ -308,13 +323,30 @@ Proof.
     split; [right; exact H1|exact H2].
 Qed.
 
+(* under the parse guard a file that does not parse is never renamed in (hence never written) *)
+Lemma names_loop_parses fl plugins reserved fs : forall tms und f sg,
+  pg = true -> In (f, sg) (fst (names_loop fl plugins reserved tms und fs)) -> sg <> [] ->
+  f_parses f = true.
+Proof.
+  induction fs as [|f0 r IH]; intros tms und f sg Hpg H Hne; cbn in H; [contradiction|].
+  destruct (calls_loop fl plugins reserved (tms, [], und) (f_calls f0)) as [[[t1 s1] u1]| |] eqn:E;
+    cbn in H; try contradiction.
+  destruct (blocked f0 s1) eqn:B; [contradiction|].
+  destruct (names_loop fl plugins reserved t1 u1 r) as [l res] eqn:En. cbn in H.
+  destruct H as [H|H].
+  - inversion H; subst. unfold blocked in B. rewrite Hpg in B. cbn in B.
+    destruct (f_parses f); [reflexivity|]. cbn in B. destruct sg; [congruence|discriminate].
+  - specialize (IH t1 u1 f sg Hpg). rewrite En in IH. exact (IH H Hne).
+Qed.
+
 Lemma names_loop_no_crash fl plugins reserved fs : forall tms und,
   snd (names_loop fl plugins reserved tms und fs) <> GCrash.
 Proof.
   induction fs as [|f r IH]; intros tms und; cbn; [discriminate|].
   destruct (calls_loop fl plugins reserved (tms, [], und) (f_calls f)) as [[[t1 s1] u1]| |] eqn:E;
     cbn; try discriminate.
-  - specialize (IH t1 u1). destruct (names_loop fl plugins reserved t1 u1 r). exact IH.
+  - destruct (blocked f s1); [discriminate|].
+    specialize (IH t1 u1). destruct (names_loop fl plugins reserved t1 u1 r). exact IH.
   - exfalso. eapply calls_loop_no_crash; eassumption.
 Qed.
 
@@ -461,31 +493,44 @@ End Model.
 
 (* the two directions packaged as the property statements *)
 Theorem touched_with_flags :
-  forall (wm : wmode) (fmt : list token -> bytes) fl v,
-  (forall o, In o (fst (new_package wm fmt fl v)) <->
-     exists f sg, In (f, sg) (fst (names_pass fl v)) /\ sg <> [] /\
+  forall (pg : bool) (wm : wmode) (fmt : list token -> bytes) fl v,
+  (forall o, In o (fst (new_package pg wm fmt fl v)) <->
+     exists f sg, In (f, sg) (fst (names_pass pg fl v)) /\ sg <> [] /\
                   o = OWrite wm (f_path f) (fmt (rename sg (f_toks f)))) /\
-  (forall f sg, In (f, sg) (fst (names_pass fl v)) ->
+  (forall f sg, In (f, sg) (fst (names_pass pg fl v)) ->
      In f (p_files v) /\ Forall (renamed_entry fl (f_calls f)) sg).
 Proof.
-  intros wm fmt fl v. split; [exact (new_package_writes wm fmt fl v)|].
-  intros f sg. exact (names_loop_sound fl _ _ _ _ _ f sg).
+  intros pg wm fmt fl v. split; [exact (new_package_writes pg wm fmt fl v)|].
+  intros f sg. exact (names_loop_sound pg fl _ _ _ _ _ f sg).
 Qed.
 
 Theorem run_touched_with_flags :
-  forall (wm : wmode) (fmt : list token -> bytes) (gen : list tmap -> bytes) fl views,
-  (forall o, In o (fst (run wm fmt gen fl views)) -> allowed_op wm fmt fl views o) /\
+  forall (pg : bool) (wm : wmode) (fmt : list token -> bytes) (gen : list tmap -> bytes) fl views,
+  (forall o, In o (fst (run pg wm fmt gen fl views)) -> allowed_op pg wm fmt fl views o) /\
   (forall v rest f sg, views = v :: rest -> p_loads v = true ->
-     In (f, sg) (fst (names_pass fl v)) -> sg <> [] ->
-     In (OWrite wm (f_path f) (fmt (rename sg (f_toks f)))) (fst (run wm fmt gen fl views))).
+     In (f, sg) (fst (names_pass pg fl v)) -> sg <> [] ->
+     In (OWrite wm (f_path f) (fmt (rename sg (f_toks f)))) (fst (run pg wm fmt gen fl views))).
 Proof.
-  intros wm fmt gen fl views. split; [exact (run_allowed wm fmt gen fl views)|].
-  intros v rest f sg E. subst. exact (run_first_pass_writes wm fmt gen fl v rest f sg).
+  intros pg wm fmt gen fl views. split; [exact (run_allowed pg wm fmt gen fl views)|].
+  intros v rest f sg E. subst. exact (run_first_pass_writes pg wm fmt gen fl v rest f sg).
+Qed.
+
+Theorem unparsable_never_written :
+  forall (wm : wmode) (fmt : list token -> bytes) fl v o,
+  In o (fst (new_package true wm fmt fl v)) ->
+  exists f sg, In f (p_files v) /\ f_parses f = true /\
+               o = OWrite wm (f_path f) (fmt (rename sg (f_toks f))).
+Proof.
+  intros wm fmt fl v o H. apply new_package_writes in H as [f [sg [H1 [H2 H3]]]].
+  exists f, sg. split; [|split; [|exact H3]].
+  - unfold names_pass in H1. apply names_loop_sound in H1 as [H1 _]. exact H1.
+  - unfold names_pass in H1. eapply names_loop_parses; [reflexivity|exact H1|exact H2].
 Qed.
 
 (* ---- contents after one pass of the repaired code ---- *)
 
 Section Contents.
+Variable pg : bool.
 Variable fmt : list token -> bytes.
 
 Lemma writes_content : forall (l : list (file * subst)) (s : fs) f sg old,
@@ -518,13 +563,14 @@ Proof.
 Qed.
 
 Lemma names_loop_paths fl plugins reserved fs : forall tms und,
-  exists k, map (fun e => f_path (fst e)) (fst (names_loop fl plugins reserved tms und fs))
+  exists k, map (fun e => f_path (fst e)) (fst (names_loop pg fl plugins reserved tms und fs))
             = firstn k (map f_path fs).
 Proof.
   induction fs as [|f r IH]; intros tms und; cbn; [exists 0; reflexivity|].
   destruct (calls_loop fl plugins reserved (tms, [], und) (f_calls f)) as [[[t1 s1] u1]| |];
     try (exists 0; reflexivity).
-  destruct (IH t1 u1) as [k Hk]. destruct (names_loop fl plugins reserved t1 u1 r). cbn in *.
+  destruct (blocked pg f s1); [exists 0; reflexivity|].
+  destruct (IH t1 u1) as [k Hk]. destruct (names_loop pg fl plugins reserved t1 u1 r). cbn in *.
   exists (S k). cbn. rewrite Hk. reflexivity.
 Qed.
 
@@ -546,12 +592,12 @@ Qed.
    contents), and every file the naming pass did not rename in is byte-for-byte what it was. *)
 Theorem rewrite_exact_fs : forall gen fl v (s : fs),
   NoDup (map f_path (p_files v)) ->
-  let s' := apply_ops (fst (new_package Trunc fmt fl v)) s in
-  (forall f sg old, In (f, sg) (fst (names_pass fl v)) -> sg <> [] -> s (f_path f) = Some old ->
+  let s' := apply_ops (fst (new_package pg Trunc fmt fl v)) s in
+  (forall f sg old, In (f, sg) (fst (names_pass pg fl v)) -> sg <> [] -> s (f_path f) = Some old ->
                     s' (f_path f) = Some (fmt (rename sg (f_toks f)))) /\
-  (forall q, (forall f sg, In (f, sg) (fst (names_pass fl v)) -> sg <> [] -> f_path f <> q) ->
+  (forall q, (forall f sg, In (f, sg) (fst (names_pass pg fl v)) -> sg <> [] -> f_path f <> q) ->
              s' q = s q) /\
-  snd (run Trunc fmt gen fl [v]) <> Crash.
+  snd (run pg Trunc fmt gen fl [v]) <> Crash.
 Proof.
   intros gen fl v s Hnd s'. subst s'. rewrite new_package_spec. cbn [fst]. split; [|split].
   - intros f sg old Hin Hne Hs. eapply writes_content; try eassumption.
@@ -560,7 +606,7 @@ Proof.
     rewrite Hk. apply NoDup_firstn. exact Hnd.
   - intros q Hq. apply frame. intro Hc. unfold touched in Hc.
     apply in_map_iff in Hc as [o [Hp Ho]].
-    assert (Ho' : In o (fst (new_package Trunc fmt fl v))) by (rewrite new_package_spec; exact Ho).
+    assert (Ho' : In o (fst (new_package pg Trunc fmt fl v))) by (rewrite new_package_spec; exact Ho).
     apply new_package_writes in Ho' as [f [sg [H1 [H2 H3]]]]. subst. cbn in Hq.
     exact (Hq f sg H1 H2 eq_refl).
   - apply no_unreachable_panic.
@@ -587,47 +633,63 @@ Definition ex_pkg : pkg :=
      p_files := [ {| f_path := User 0;
                      f_toks := [TIdent nEX; TOther [40]; TOther [41]; TIdent nEX; TOther [40];
                                 TOther [41]; TComment [47;47;99]]%N;
-                     f_calls := [mk_call nEX 0 1; mk_call nEX 3 2] |};
+                     f_calls := [mk_call nEX 0 1; mk_call nEX 3 2]; f_parses := true |};
                   {| f_path := User 1; f_toks := [TIdent nE; TOther [40]; TOther [41]]%N;
-                     f_calls := [mk_call nE 0 1] |} ] |}.
+                     f_calls := [mk_call nE 0 1]; f_parses := true |} ] |}.
 
 Definition fl_of (a d : bool) : flags := {| autoname := a; dedup := d |}.
 
 (* no flags: conflict -> Add Error and no operation at all *)
-Example ex_noflags : run Trunc toy_fmt toy_gen (fl_of false false) [ex_pkg] = ([], AddError).
+Example ex_noflags : run true Trunc toy_fmt toy_gen (fl_of false false) [ex_pkg] = ([], AddError).
 Proof. vm_compute. reflexivity. Qed.
 
 (* -autoname: the second call of file 0 becomes "dE" (shorter); file 0 is rewritten; then
    file 1's dE(type 1) is a duplicate of dEXXX -> Add Error AFTER file 0 has been written *)
 Example ex_autoname :
-  run Trunc toy_fmt toy_gen (fl_of true false) [ex_pkg]
+  run true Trunc toy_fmt toy_gen (fl_of true false) [ex_pkg]
   = ([OWrite Trunc (User 0) (toy_fmt [TIdent nEX; TOther [40]; TOther [41]; TIdent nE; TOther [40];
                                      TOther [41]; TComment [47;47;99]]%N)], AddError).
 Proof. vm_compute. reflexivity. Qed.
 
 (* both flags: file 0 as above, file 1's call renamed to dEXXX (longer); derived.gen.go created *)
 Example ex_both :
-  touched (fst (run Trunc toy_fmt toy_gen (fl_of true true) [ex_pkg])) = [User 0; User 1; Derived]
-  /\ snd (run Trunc toy_fmt toy_gen (fl_of true true) [ex_pkg]) = Success.
+  touched (fst (run true Trunc toy_fmt toy_gen (fl_of true true) [ex_pkg])) = [User 0; User 1; Derived]
+  /\ snd (run true Trunc toy_fmt toy_gen (fl_of true true) [ex_pkg]) = Success.
 Proof. vm_compute. auto. Qed.
 
 (* the same run through the file system: the shorter text replaces the old one entirely with
    O_TRUNC, and keeps the old tail without it *)
 Definition ex_fs : fs := fun p =>
   match p with
-  | User 0 => Some (toy_fmt (f_toks (nth 0 (p_files ex_pkg) {| f_path := Derived; f_toks := []; f_calls := [] |})))
+  | User 0 => Some (toy_fmt (f_toks (nth 0 (p_files ex_pkg) {| f_path := Derived; f_toks := []; f_calls := []; f_parses := true |})))
   | User 1 => Some (toy_fmt [TIdent nE; TOther [40]; TOther [41]]%N)
   | _ => None
   end.
 
 Example ex_fs_trunc :
-  apply_ops (fst (run Trunc toy_fmt toy_gen (fl_of true true) [ex_pkg])) ex_fs (User 0)
+  apply_ops (fst (run true Trunc toy_fmt toy_gen (fl_of true true) [ex_pkg])) ex_fs (User 0)
   = Some (toy_fmt [TIdent nEX; TOther [40]; TOther [41]; TIdent nE; TOther [40]; TOther [41];
                    TComment [47;47;99]]%N).
 Proof. vm_compute. reflexivity. Qed.
 
 Example run_notrunc_refuted :
-  apply_ops (fst (run NoTrunc toy_fmt toy_gen (fl_of true true) [ex_pkg])) ex_fs (User 0)
+  apply_ops (fst (run true NoTrunc toy_fmt toy_gen (fl_of true true) [ex_pkg])) ex_fs (User 0)
   = Some (toy_fmt [TIdent nEX; TOther [40]; TOther [41]; TIdent nE; TOther [40]; TOther [41];
                    TComment [47;47;99]]%N ++ [47;99;32])%N.
+Proof. vm_compute. reflexivity. Qed.
+
+(* a file with a syntax error (f_parses = false) containing a renamed call: the repaired code
+   returns an error and leaves it alone; the tree before the fix rewrites it from the
+   error-recovered AST (the real run loses user code: corpus/C10/broken-file) *)
+Definition ex_broken : pkg :=
+  {| p_loads := true; p_plugins := [nE]; p_reserved := [];
+     p_files := [ {| f_path := User 0; f_toks := [TIdent nE; TOther [40]; TIdent nE; TOther [40]]%N;
+                     f_calls := [mk_call nE 0 1; mk_call nE 2 2]; f_parses := false |} ] |}.
+
+Example ex_broken_guarded :
+  run true Trunc toy_fmt toy_gen (fl_of true true) [ex_broken] = ([], AddError).
+Proof. vm_compute. reflexivity. Qed.
+
+Example unparsable_rewritten_refuted :
+  touched (fst (run false Trunc toy_fmt toy_gen (fl_of true true) [ex_broken])) = [User 0; Derived].
 Proof. vm_compute. reflexivity. Qed.
